@@ -37,6 +37,11 @@ func genC04Shared(seed uint64, run int) *Plan {
 	p := &Plan{Prop: "C04", Seed: seed, Run: run}
 	p.Cfg = Cfg{Store: "mem", Strategy: pick(r, "random", "random", "pct", "sticky"), PCTDepth: 1 + r.IntN(3), ExpireMs: 60000, Variant: "sharedtxn", SharedSess: true}
 	p.Cfg.Fine = pick(r, 0, 1, 1, 1, 2)
+	if r.IntN(2) == 0 {
+		// the transaction is committed by another goroutine while the members are still working: what they do
+		// afterwards runs on its own, and every acknowledged increment still counts exactly once
+		p.Cfg.CloseAtEnd = true
+	}
 	keys := 1 + r.IntN(2)
 	uniq := 0
 	for ti, n := 0, 2+r.IntN(2); ti < n; ti++ {
@@ -198,6 +203,8 @@ func execC04Shared(t *testing.T, plan *Plan) *Outcome {
 		sim := e.sim
 		var actors []*actor
 		ok := false
+		var earlyErr error
+		earlyDone := false
 		sim.Go("setup", false, func(*simrt.Task) {
 			if err := e.open(); err != nil {
 				e.out.Harness = "open failed: " + err.Error()
@@ -229,6 +236,13 @@ func execC04Shared(t *testing.T, plan *Plan) *Outcome {
 				ops := tp.Ops
 				a.t = sim.Go(tp.Name, false, func(*simrt.Task) { a.run(ops) })
 			}
+			if plan.Cfg.CloseAtEnd {
+				sim.Go("early-committer", false, func(*simrt.Task) {
+					simrt.Yield("op:next")
+					earlyErr = e.sharedSess[0].CommitTransaction(context.Background())
+					earlyDone = true
+				})
+			}
 		})
 		sim.Run()
 		if !ok || e.out.Harness != "" {
@@ -246,10 +260,15 @@ func execC04Shared(t *testing.T, plan *Plan) *Outcome {
 			return
 		}
 		var cerr error
-		sim.Go("committer", false, func(*simrt.Task) { cerr = e.sharedSess[0].CommitTransaction(context.Background()) })
-		sim.Run()
-		if stalled("commit") {
-			return
+		if earlyDone {
+			cerr = earlyErr
+			e.probe("shared-transaction-committed-early")
+		} else {
+			sim.Go("committer", false, func(*simrt.Task) { cerr = e.sharedSess[0].CommitTransaction(context.Background()) })
+			sim.Run()
+			if stalled("commit") {
+				return
+			}
 		}
 		if cerr != nil {
 			e.violate(violation("C04", "shared-transaction-commit-failed", "", fmt.Sprintf("committing the shared transaction failed: %v", cerr)))
